@@ -27,7 +27,7 @@ proof fn lemma_bounded_prefix(a: Seq<RegexNode>, b: Seq<RegexNode>, i: int, n: i
 /// a regex tree that corresponds to an expression has all its positions below the number of items
 proof fn lemma_corr_bounded(ea: Seq<Expr>, e: int, na: Seq<RegexNode>, r: int, ifp: Seq<RegexInput>, base: int)
     requires corr(ea, e, na, r, ifp, base)
-    ensures leaves_bounded(na, r, ifp.len() as int)
+    ensures leaves_bounded(na, r, ifp.len() - 1)
     decreases e, 1int
 {
     match ea[e] {
@@ -36,11 +36,11 @@ proof fn lemma_corr_bounded(ea: Seq<Expr>, e: int, na: Seq<RegexNode>, r: int, i
         Expr::Fallback { children, .. } => { match na[r] { RegexNode::Or(sub) => { lemma_corr_children_bounded(ea, e, children@, na, r, sub@, ifp, base); } _ => {} } }
         Expr::Optional { child, .. } => { match na[r] { RegexNode::Or(sub) => {
             lemma_corr_bounded(ea, child.0 as int, na, sub@[0].0 as int, ifp, base);
-            assert forall|k: int| 0 <= k < sub@.len() implies ((#[trigger] sub@[k]).0 < r ==> leaves_bounded(na, sub@[k].0 as int, ifp.len() as int)) by { }
+            assert forall|k: int| 0 <= k < sub@.len() implies ((#[trigger] sub@[k]).0 < r ==> leaves_bounded(na, sub@[k].0 as int, ifp.len() - 1)) by { }
         } _ => {} } }
         Expr::Many1 { child, .. } => { match na[r] { RegexNode::Cat(sub) => {
             lemma_corr_bounded(ea, child.0 as int, na, sub@[0].0 as int, ifp, base);
-            assert forall|k: int| 0 <= k < sub@.len() implies ((#[trigger] sub@[k]).0 < r ==> leaves_bounded(na, sub@[k].0 as int, ifp.len() as int)) by { }
+            assert forall|k: int| 0 <= k < sub@.len() implies ((#[trigger] sub@[k]).0 < r ==> leaves_bounded(na, sub@[k].0 as int, ifp.len() - 1)) by { }
         } _ => {} } }
         _ => {}
     }
@@ -48,13 +48,128 @@ proof fn lemma_corr_bounded(ea: Seq<Expr>, e: int, na: Seq<RegexNode>, r: int, i
 
 proof fn lemma_corr_children_bounded(ea: Seq<Expr>, e: int, ch: Seq<ExprId>, na: Seq<RegexNode>, r: int, sub: Seq<RegexNodeId>, ifp: Seq<RegexInput>, base: int)
     requires corr_children(ea, e, ch, na, r, sub, ifp, base)
-    ensures forall|k: int| 0 <= k < sub.len() ==> ((#[trigger] sub[k]).0 < r ==> leaves_bounded(na, sub[k].0 as int, ifp.len() as int))
+    ensures forall|k: int| 0 <= k < sub.len() ==> ((#[trigger] sub[k]).0 < r ==> leaves_bounded(na, sub[k].0 as int, ifp.len() - 1))
     decreases e, 0int
 {
-    assert forall|k: int| 0 <= k < sub.len() implies ((#[trigger] sub[k]).0 < r ==> leaves_bounded(na, sub[k].0 as int, ifp.len() as int)) by {
+    assert forall|k: int| 0 <= k < sub.len() implies ((#[trigger] sub[k]).0 < r ==> leaves_bounded(na, sub[k].0 as int, ifp.len() - 1)) by {
         assert(0 <= ch[k].0 < e);
         lemma_corr_bounded(ea, ch[k].0 as int, na, sub[k].0 as int, ifp, base + leaves_upto(ea, ch, k, e));
     }
+}
+
+
+/// a corresponding regex node is never a bare Star
+proof fn lemma_corr_not_star(ea: Seq<Expr>, e: int, na: Seq<RegexNode>, r: int, ifp: Seq<RegexInput>, base: int)
+    requires corr(ea, e, na, r, ifp, base)
+    ensures !(na[r] is Star)
+{
+}
+
+/// the positions of a corresponding regex tree are base .. base + leaf_count - 1
+proof fn lemma_corr_range(ea: Seq<Expr>, e: int, na: Seq<RegexNode>, r: int, ifp: Seq<RegexInput>, base: int, p: u32)
+    requires corr(ea, e, na, r, ifp, base), arena_wf(na), poss(na, r).contains(p)
+    ensures base <= p < base + leaf_count(ea, e)
+    decreases e, 1int
+{
+    match ea[e] {
+        Expr::Sequence { children, .. } => { match na[r] { RegexNode::Cat(sub) => { lemma_corr_children_range(ea, e, children@, na, r, sub@, ifp, base, p); } _ => {} } }
+        Expr::Alternative { children, .. } => { match na[r] { RegexNode::Or(sub) => { lemma_corr_children_range(ea, e, children@, na, r, sub@, ifp, base, p); } _ => {} } }
+        Expr::Fallback { children, .. } => { match na[r] { RegexNode::Or(sub) => { lemma_corr_children_range(ea, e, children@, na, r, sub@, ifp, base, p); } _ => {} } }
+        Expr::Optional { child, .. } => { match na[r] { RegexNode::Or(sub) => {
+            let k = choose|k: int| 0 <= k < sub@.len() && (#[trigger] sub@[k]).0 < r && poss(na, sub@[k].0 as int).contains(p);
+            if k == 0 { lemma_corr_range(ea, child.0 as int, na, sub@[0].0 as int, ifp, base, p); }
+        } _ => {} } }
+        Expr::Many1 { child, .. } => { match na[r] { RegexNode::Cat(sub) => {
+            let k = choose|k: int| 0 <= k < sub@.len() && (#[trigger] sub@[k]).0 < r && poss(na, sub@[k].0 as int).contains(p);
+            assert(node_wf(na[sub@[1].0 as int], sub@[1].0 as int));
+            lemma_corr_range(ea, child.0 as int, na, sub@[0].0 as int, ifp, base, p);
+        } _ => {} } }
+        _ => {}
+    }
+}
+
+proof fn lemma_corr_children_range(ea: Seq<Expr>, e: int, ch: Seq<ExprId>, na: Seq<RegexNode>, r: int, sub: Seq<RegexNodeId>, ifp: Seq<RegexInput>, base: int, p: u32)
+    requires
+        corr_children(ea, e, ch, na, r, sub, ifp, base), arena_wf(na),
+        exists|k: int| 0 <= k < sub.len() && (#[trigger] sub[k]).0 < r && poss(na, sub[k].0 as int).contains(p),
+    ensures base <= p < base + leaves_upto(ea, ch, ch.len() as int, e)
+    decreases e, 0int
+{
+    let k = choose|k: int| 0 <= k < sub.len() && (#[trigger] sub[k]).0 < r && poss(na, sub[k].0 as int).contains(p);
+    assert(0 <= ch[k].0 < e);
+    lemma_corr_range(ea, ch[k].0 as int, na, sub[k].0 as int, ifp, base + leaves_upto(ea, ch, k, e), p);
+    lemma_leaves_mono(ea, ch, k + 1, ch.len() as int, e);
+    assert(leaves_upto(ea, ch, k + 1, e) == leaves_upto(ea, ch, k, e) + leaf_count(ea, ch[k].0 as int));
+}
+
+/// corresponding children have pairwise disjoint positions
+proof fn lemma_corr_children_disjoint(ea: Seq<Expr>, e: int, ch: Seq<ExprId>, na: Seq<RegexNode>, r: int, sub: Seq<RegexNodeId>, ifp: Seq<RegexInput>, base: int)
+    requires corr_children(ea, e, ch, na, r, sub, ifp, base), arena_wf(na)
+    ensures disjoint_children(na, sub)
+{
+    assert forall|k1: int, k2: int, p: u32| 0 <= k1 < sub.len() && 0 <= k2 < sub.len() && k1 != k2
+        && #[trigger] poss(na, sub[k1].0 as int).contains(p) implies !#[trigger] poss(na, sub[k2].0 as int).contains(p) by {
+        if poss(na, sub[k2].0 as int).contains(p) {
+            assert(0 <= ch[k1].0 < e && 0 <= ch[k2].0 < e);
+            lemma_corr_range(ea, ch[k1].0 as int, na, sub[k1].0 as int, ifp, base + leaves_upto(ea, ch, k1, e), p);
+            lemma_corr_range(ea, ch[k2].0 as int, na, sub[k2].0 as int, ifp, base + leaves_upto(ea, ch, k2, e), p);
+            assert(leaves_upto(ea, ch, k1 + 1, e) == leaves_upto(ea, ch, k1, e) + leaf_count(ea, ch[k1].0 as int));
+            assert(leaves_upto(ea, ch, k2 + 1, e) == leaves_upto(ea, ch, k2, e) + leaf_count(ea, ch[k2].0 as int));
+            if k1 < k2 { lemma_leaves_mono(ea, ch, k1 + 1, k2, e); } else { lemma_leaves_mono(ea, ch, k2 + 1, k1, e); }
+            assert(false);
+        }
+    }
+}
+
+/// a corresponding regex tree is linear (each position once; `c...` shares c with its star)
+proof fn lemma_corr_lin(ea: Seq<Expr>, e: int, na: Seq<RegexNode>, r: int, ifp: Seq<RegexInput>, base: int)
+    requires corr(ea, e, na, r, ifp, base), arena_wf(na)
+    ensures lin_ok(na, r)
+    decreases e, 1int
+{
+    match ea[e] {
+        Expr::Sequence { children, .. } => { match na[r] { RegexNode::Cat(sub) => {
+            lemma_corr_children_lin(ea, e, children@, na, r, sub@, ifp, base);
+            if is_plus(na, sub@) { lemma_corr_not_star(ea, children@[1].0 as int, na, sub@[1].0 as int, ifp, base + leaves_upto(ea, children@, 1, e)); }
+        } _ => {} } }
+        Expr::Alternative { children, .. } => { match na[r] { RegexNode::Or(sub) => { lemma_corr_children_lin(ea, e, children@, na, r, sub@, ifp, base); } _ => {} } }
+        Expr::Fallback { children, .. } => { match na[r] { RegexNode::Or(sub) => { lemma_corr_children_lin(ea, e, children@, na, r, sub@, ifp, base); } _ => {} } }
+        Expr::Optional { child, .. } => { match na[r] { RegexNode::Or(sub) => {
+            lemma_corr_lin(ea, child.0 as int, na, sub@[0].0 as int, ifp, base);
+            lemma_corr_not_star(ea, child.0 as int, na, sub@[0].0 as int, ifp, base);
+            assert forall|k: int| 0 <= k < sub@.len() implies 0 <= (#[trigger] sub@[k]).0 < r && lin_ok(na, sub@[k].0 as int) && !(na[sub@[k].0 as int] is Star) by {
+                if k == 0 { } else { assert(k == 1); }
+            }
+            assert(disjoint_children(na, sub@)) by {
+                assert forall|k1: int, k2: int, p: u32| 0 <= k1 < sub@.len() && 0 <= k2 < sub@.len() && k1 != k2
+                    && #[trigger] poss(na, sub@[k1].0 as int).contains(p) implies !#[trigger] poss(na, sub@[k2].0 as int).contains(p) by {
+                    assert(k1 == 1 || k2 == 1);
+                }
+            }
+        } _ => {} } }
+        Expr::Many1 { child, .. } => { match na[r] { RegexNode::Cat(sub) => {
+            lemma_corr_lin(ea, child.0 as int, na, sub@[0].0 as int, ifp, base);
+            lemma_corr_not_star(ea, child.0 as int, na, sub@[0].0 as int, ifp, base);
+            assert(node_wf(na[sub@[1].0 as int], sub@[1].0 as int));
+            assert(is_plus(na, sub@));
+        } _ => {} } }
+        _ => {}
+    }
+}
+
+proof fn lemma_corr_children_lin(ea: Seq<Expr>, e: int, ch: Seq<ExprId>, na: Seq<RegexNode>, r: int, sub: Seq<RegexNodeId>, ifp: Seq<RegexInput>, base: int)
+    requires corr_children(ea, e, ch, na, r, sub, ifp, base), arena_wf(na)
+    ensures
+        forall|k: int| 0 <= k < sub.len() ==> 0 <= (#[trigger] sub[k]).0 < r && lin_ok(na, sub[k].0 as int) && !(na[sub[k].0 as int] is Star),
+        disjoint_children(na, sub),
+    decreases e, 0int
+{
+    assert forall|k: int| 0 <= k < sub.len() implies 0 <= (#[trigger] sub[k]).0 < r && lin_ok(na, sub[k].0 as int) && !(na[sub[k].0 as int] is Star) by {
+        assert(0 <= ch[k].0 < e);
+        lemma_corr_lin(ea, ch[k].0 as int, na, sub[k].0 as int, ifp, base + leaves_upto(ea, ch, k, e));
+        lemma_corr_not_star(ea, ch[k].0 as int, na, sub[k].0 as int, ifp, base + leaves_upto(ea, ch, k, e));
+    }
+    lemma_corr_children_disjoint(ea, e, ch, na, r, sub, ifp, base);
 }
 
 } // verus!
